@@ -1,7 +1,12 @@
 ------------------------------ MODULE TraceC13 ------------------------------
 (* Code -> spec for C13.  A case is one signature rendered as one kind of callable (function, *)
 (* method, classmethod, staticmethod, constructor) with every call shape that was executed:    *)
-(*   [sig, kind, crash, calls : <<[npos, kws, py, pt]>>]                                      *)
+(*   [sig, kind, crash, redefs : <<[at, attr, pdef, kdef]>>, calls : <<[npos, kws, py, pt]>>] *)
+(*   redefs the history of the module: re-assignment j (`<callee>.__defaults__ = (..pdef      *)
+(*          values..)` for attr = "pos", `<callee>.__kwdefaults__ = {..kdef..}` for "kw") was  *)
+(*          executed after the first `at` calls (at is non-decreasing).  The trace advances    *)
+(*          the signature with the spec's own Redefine, in order; call k is judged against     *)
+(*          the signature in force when it was made (SigAt).                                   *)
 (*   crash  "" or the exception with which pytype died on the module (then pt is empty)       *)
 (*   py  what CPython did with the same header text and the same call expression: a real call *)
 (*       of the callee (which returns / stores locals()) and inspect.signature(callee).bind:  *)
@@ -17,7 +22,8 @@
 (*                is dropped: dict[nothing, nothing] is the empty dict)                         *)
 (* "STAT" lines carry the spec-computed classification of every call (vacuity guards).        *)
 (* Marker classes: positional actual i is an instance of P<i>, keyword actual n of K_<n>,     *)
-(* the default of parameter n of D_<n>; observations are sets of class names.                 *)
+(* the default of parameter n of D_<n> (D<g>_<n> when installed by re-assignment g);          *)
+(* observations are sets of class names.                                                      *)
 (* "DIV" lines are informational (the error class pytype chose vs. CPython's first complaint). *)
 EXTENDS ArgBindOps, Json, IOUtils, TLCExt
 
@@ -26,11 +32,34 @@ Cases == JsonDeserialize(IOEnv.TRACE_FILE)
 VARIABLE i
 
 SigOf(c) == [po |-> c.sig.po, pk |-> c.sig.pk, va |-> c.sig.va, ko |-> c.sig.ko, kw |-> c.sig.kw,
-             pdef |-> c.sig.pdef, kdef |-> ToSet(c.sig.kdef)]
+             pdef |-> c.sig.pdef, kdef |-> ToSet(c.sig.kdef), pgen |-> 0, kgen |-> 0]
 CallOf(x) == [npos |-> x.npos, kws |-> ToSet(x.kws)]
+RedefOf(r) == [attr |-> r.attr, pdef |-> r.pdef, kdef |-> ToSet(r.kdef)]
+
+(* Histories.  dk / ik switch on pytype's two documented deviations (known findings):          *)
+(*   dk  C13:defaults-assignment-drops-kwonly-defaults: set_function_defaults REPLACES         *)
+(*       signature.defaults (which also holds the keyword-only defaults) by the positional     *)
+(*       ones, so after `f.__defaults__ = ..` no keyword-only parameter has a default;         *)
+(*   ik  C13:kwdefaults-assignment-ignored: `f.__kwdefaults__ = ..` is stored as an ordinary   *)
+(*       attribute and has no effect on the signature.                                         *)
+(* dk = ik = FALSE is the language rule (the spec's Redefine).                                 *)
+RedefineAs(s, r, g, dk, ik) ==
+  IF r.attr = "pos" THEN (IF dk THEN [Redefine(s, r, g) EXCEPT !.kdef = {}] ELSE Redefine(s, r, g))
+  ELSE IF ik THEN s ELSE Redefine(s, r, g)
+AfterAs(cs, m, dk, ik) ==     \* the signature after the first m re-assignments of the case
+  LET F[j \in 0 .. m] ==
+        IF j = 0 THEN SigOf(cs) ELSE RedefineAs(F[j - 1], RedefOf(cs.redefs[j]), j, dk, ik) IN
+  F[m]
+StageOf(cs, k) == Cardinality({j \in DOMAIN cs.redefs : cs.redefs[j].at < k})
+SigAt(cs, k) == AfterAs(cs, StageOf(cs, k), FALSE, FALSE)
+HistoryWellFormed(cs) ==
+  /\ \A j \in DOMAIN cs.redefs :
+        /\ cs.redefs[j].at \in 0 .. Len(cs.calls)
+        /\ j > 1 => cs.redefs[j - 1].at <= cs.redefs[j].at
+        /\ RedefOf(cs.redefs[j]) \in Redefs(AfterAs(cs, j - 1, FALSE, FALSE))
 
 (* what a correct binding looks like in marker classes *)
-ExpSlot(s, c, n) == {Marker(Bind(s, c).slots[n])}
+ExpSlot(s, c, n) == {MarkerIn(s, Bind(s, c).slots[n])}
 ExpVa(s, c) == LET v == Bind(s, c).va IN [j \in DOMAIN v |-> {Marker(SrcPos(v[j]))}]
 ExpKw(s, c) == {Marker(SrcKw(k)) : k \in Bind(s, c).kw}
 
@@ -51,10 +80,10 @@ DevErr(s, c) ==
   Multiple(s, c) # {} \/ TooMany(s, c) \/ DevMissingPos(s, c) # {} \/ MissingKo(s, c) # {}
 DevSlot(s, c, n) ==
   IF n \in c.kws /\ n \in PoSet(s) THEN {Marker(SrcKw(n))}
-  ELSE IF n \in KoSet(s) THEN {Marker(IF n \in c.kws THEN SrcKw(n) ELSE SrcDef(n))}
+  ELSE IF n \in KoSet(s) THEN {MarkerIn(s, IF n \in c.kws THEN SrcKw(n) ELSE SrcDef(n))}
   ELSE LET k == CHOOSE j \in 1 .. NPosParams(s) : PosParams(s)[j] = n IN
        IF k <= c.npos THEN {Marker(SrcPos(k))}
-       ELSE IF n \in c.kws THEN {Marker(SrcKw(n))} ELSE {Marker(SrcDef(n))}
+       ELSE IF n \in c.kws THEN {Marker(SrcKw(n))} ELSE {MarkerIn(s, SrcDef(n))}
 DevKw(s, c) == {Marker(SrcKw(k)) : k \in Extra(s, c) \ PoSet(s)}
 DevVa(s, c) ==
   IF c.npos > NPosParams(s) THEN [j \in 1 .. (c.npos - NPosParams(s)) |-> {Marker(SrcPos(NPosParams(s) + j))}]
@@ -115,33 +144,64 @@ PyFails(s, c, p) ==
                \cup (IF ~s.kw /\ p.kw # <<>> THEN {"kwargs"} ELSE {})
           ELSE {})
 
-CaseBad(cs) ==    \* <<call index, failing clause, explained by the documented deviation?>>
-  LET s == SigOf(cs) IN
-  IF cs.crash # "" THEN {<<0, "crash", FALSE>>}     \* pytype raised instead of analysing the calls
+(* spec-computed attribution of a failing call to a documented deviation: "" (none),           *)
+(* "posonly", or - in a history - the deviation(s) whose as-coded signature predicts           *)
+(* EVERYTHING pytype reported for the call (error presence and every revealed type).           *)
+Attribution(cs, k) ==
+  LET c == CallOf(cs.calls[k])
+      o == cs.calls[k].pt
+      m == StageOf(cs, k) IN
+  IF DevExplains(SigAt(cs, k), c, o) THEN "posonly"
+  ELSE IF m = 0 THEN ""
+  ELSE IF PtFails(AfterAs(cs, m, TRUE, FALSE), c, o) = {} THEN "dropkw"
+  ELSE IF PtFails(AfterAs(cs, m, FALSE, TRUE), c, o) = {} THEN "kwignored"
+  ELSE IF PtFails(AfterAs(cs, m, TRUE, TRUE), c, o) = {} THEN "dropkw+kwignored"
+  ELSE ""
+
+CaseBad(cs) ==    \* <<call index, failing clause, documented deviation that explains it or "">>
+  IF cs.crash # "" THEN {<<0, "crash", "">>}     \* pytype raised instead of analysing the calls
   ELSE
-  UNION {{<<k, f, DevExplains(s, CallOf(cs.calls[k]), cs.calls[k].pt)>> :
-            f \in PtFails(s, CallOf(cs.calls[k]), cs.calls[k].pt)} : k \in DOMAIN cs.calls}
+  UNION {{<<k, f, Attribution(cs, k)>> :
+            f \in PtFails(SigAt(cs, k), CallOf(cs.calls[k]), cs.calls[k].pt)} : k \in DOMAIN cs.calls}
 CaseOracle(cs) ==
-  LET s == SigOf(cs) IN
-  UNION {{<<k, f>> : f \in PyFails(s, CallOf(cs.calls[k]), cs.calls[k].py)} : k \in DOMAIN cs.calls}
+  (IF HistoryWellFormed(cs) THEN {} ELSE {<<0, "malformed-history">>})
+  \cup UNION {{<<k, f>> : f \in PyFails(SigAt(cs, k), CallOf(cs.calls[k]), cs.calls[k].py)} : k \in DOMAIN cs.calls}
 CaseDiv(cs) ==
-  LET s == SigOf(cs) IN
   IF cs.crash # "" THEN {} ELSE
-  {k \in DOMAIN cs.calls : ~KindAgrees(s, CallOf(cs.calls[k]), cs.calls[k].pt)}
+  {k \in DOMAIN cs.calls : ~KindAgrees(SigAt(cs, k), CallOf(cs.calls[k]), cs.calls[k].pt)}
 
 TInit == i = 1 /\ TLCSet(1, FALSE)
 TNext == /\ i <= Len(Cases)
          /\ i' = i + 1
          /\ (i' > Len(Cases) => TLCSet(1, TRUE))
 
-(* spec-computed classification of call k: <<error kind, |*va|, |**kw|, deviation applies>> *)
+(* spec-computed classification of call k: <<error kind, |*va|, |**kw|, deviation applies,    *)
+(* number of re-assignments before the call, effect of the last one on this call>>:            *)
+(*   "lost"    the call bound before the last re-assignment and now lacks a parameter (it       *)
+(*             relies on a default that was removed)                                            *)
+(*   "gained"  it lacked a parameter before and binds now (through a default that was added)    *)
+(*   "newdef"  it binds before and after and some parameter takes a re-assigned default value   *)
+HistEffect(cs, k) ==
+  LET m == StageOf(cs, k)
+      c == CallOf(cs.calls[k]) IN
+  IF m = 0 THEN "" ELSE
+  LET p == AfterAs(cs, m - 1, FALSE, FALSE)
+      s == AfterAs(cs, m, FALSE, FALSE)
+      kp == ErrKind(p, c)
+      ks == ErrKind(s, c) IN
+  IF kp = "none" /\ ks \in {"missing", "missing_kwonly"} THEN "lost"
+  ELSE IF kp \in {"missing", "missing_kwonly"} /\ ks = "none" THEN "gained"
+  ELSE IF ks = "none" /\ \E n \in ParamNames(s) :
+            Bind(s, c).slots[n][1] = "default" /\ DefClass(s, n) # "D_" \o n THEN "newdef"
+  ELSE ""
 CaseStat(cs) ==
-  LET s == SigOf(cs) IN
   [k \in DOMAIN cs.calls |->
-     LET c == CallOf(cs.calls[k])
+     LET s == SigAt(cs, k)
+         c == CallOf(cs.calls[k])
          b == Bind(s, c) IN
      <<b.err, IF b.err = "none" THEN Len(b.va) ELSE 0,
-       IF b.err = "none" THEN Cardinality(b.kw) ELSE 0, DevApplies(s, c)>>]
+       IF b.err = "none" THEN Cardinality(b.kw) ELSE 0, DevApplies(s, c),
+       StageOf(cs, k), HistEffect(cs, k)>>]
 
 Ok == i <= Len(Cases) =>
         /\ PrintT(<<"STAT", ToJson([i |-> i, calls |-> CaseStat(Cases[i])])>>)
